@@ -76,7 +76,9 @@ func checkC13Rules(run *Run, res *Result) {
 	opening := map[int]bool{}
 	openCommits := map[int]int{}
 	bound := cfg.CkptTimeout + 75_000_000_000
-	if cfg.Version[0] < 5 || cfg.Version[0] == 5 && cfg.Version[1] < 5 {
+	legacy := cfg.Version[0] < 5 || cfg.Version[0] == 5 && cfg.Version[1] < 5
+	endDuringClose := false
+	if legacy {
 		bound += int64(cfg.NVb) * 60_000_000_000
 	}
 	if cfg.HealthCheck {
@@ -86,6 +88,9 @@ func checkC13Rules(run *Run, res *Result) {
 		e := &run.Evs[i]
 		switch e.K {
 		case journal.KFault:
+			if strings.HasPrefix(e.S, "end-during-close") {
+				endDuringClose = true
+			}
 			if e.S != "slowconsumer" {
 				anyFault = true // a stalled connection or an in-flight faulted save outlives the instant it was injected
 			}
@@ -329,6 +334,8 @@ func checkC13Rules(run *Run, res *Result) {
 				sig := "plain"
 				if mm.closeInRebalance {
 					sig = "close-during-rebalance-window"
+				} else if legacy && endDuringClose {
+					sig = "stream-ended-by-itself-during-the-serial-close-of-a-pre-5.5-server"
 				}
 				res.violate("C13", "R1-shutdown-never-completed", len(run.Evs), sig, "member %d: Close() was called at %s; Start() had still not returned %s later (bound %s)", m, fmtDur(mm.closeT), fmtDur(last-mm.closeT), fmtDur(bound))
 			}
